@@ -351,10 +351,9 @@ class SyncSerial(_Base):
             # the serving loop has ended: a serial server has nothing that would start it again
             raised, sock.raised = sock.raised, ""
             return {"writes": [], "raised": raised, "closed": 0, "note": "serving loop ended"}
-        if not len(data):
-            return {"writes": [], "raised": "", "closed": 0}      # an idle serial line: read() returns nothing, the loop just goes on
         if sock.hung:
             return {"writes": [], "raised": "HANG", "closed": 0}
+        # (an empty chunk is an idle serial line: the port's read time-out elapses and read() returns nothing; the loop must go on)
         ok = sock.push(bytes(data))
         raised, sock.raised = sock.raised, ""
         if not ok:
